@@ -33,6 +33,18 @@ CHECKS = {
         technique="deterministic simulation: seeded histories with an execution-log oracle against IR-level cone fingerprints",
         design_ref="DESIGN.md 4.1, 7 (C02)",
     ),
+    "C03": dict(
+        engine="P",
+        category="exploration",
+        text=("For each seeded program one canonical evaluation and 3-7 environment variants - separate interpreters under "
+              "other PYTHONHASHSEED values, other cwd, tree copied / reached through a symlink, other store kinds, "
+              "extra_debug, graph export, in-process prehistories with other evaluations, reverted mutations and a failed "
+              "evaluation - must hand identical path->signature maps to the store; plus a committed corpus of 40 programs "
+              "whose signatures are pinned byte-for-byte."),
+        note=PIPE_NOTE + " One CPython version / platform. Corpus pinned after the fix: commits of known_findings.json.",
+        technique="deterministic simulation: seeded environment/prehistory variants in forked and separately started interpreters, signature capture, pinned corpus",
+        design_ref="DESIGN.md 7 (C03)",
+    ),
     "C04": dict(
         engine="P",
         category="exploration",
